@@ -1,0 +1,50 @@
+//go:build verif
+
+package lite
+
+import (
+	"time"
+
+	"go.minekube.com/gate/pkg/edition/java/proto/packet"
+	"go.minekube.com/gate/pkg/gate/proto"
+	"go.minekube.com/gate/pkg/internal/verifhook"
+	"golang.org/x/sync/singleflight"
+)
+
+// VerifFlightGroup is the flight group a ping status cache runs its loads through.
+type VerifFlightGroup interface {
+	DoChan(string, func() (any, error)) <-chan singleflight.Result
+}
+
+// VerifPingCache exposes a pingStatusCache with injected clock and flight group
+// to the verification harness.
+type VerifPingCache struct{ c *pingStatusCache }
+
+// VerifNewPingCache is newPingStatusCache.
+func VerifNewPingCache(now func() time.Time, group VerifFlightGroup) *VerifPingCache {
+	return &VerifPingCache{c: newPingStatusCache(now, group)}
+}
+
+// Load is pingStatusCache.load; a status is carried as its JSON string.
+func (v *VerifPingCache) Load(backendAddr string, protocol int, routeGeneration uint64, ttl time.Duration, load func() (string, error)) (string, error) {
+	r := v.c.load(pingKey{backendAddr, proto.Protocol(protocol), routeGeneration}, ttl, func() *pingResult {
+		status, err := load()
+		return &pingResult{res: &packet.StatusResponse{Status: status}, err: err}
+	})
+	return r.res.Status, r.err
+}
+
+// Get is pingStatusCache.get.
+func (v *VerifPingCache) Get(backendAddr string, protocol int, routeGeneration uint64) (string, bool) {
+	r := v.c.get(pingKey{backendAddr, proto.Protocol(protocol), routeGeneration})
+	if r == nil {
+		return "", false
+	}
+	return r.res.Status, true
+}
+
+// Reset is pingStatusCache.reset.
+func (v *VerifPingCache) Reset() { v.c.reset() }
+
+// VerifPoint lets a harness-supplied loader park at a schedule gate of its own.
+func VerifPoint(name string, kv ...any) { verifhook.Point(name, kv...) }
